@@ -28,10 +28,41 @@ WFCQ = {
 }
 
 
+def wfq_program(sc):
+    out = []
+    for t, ops in sc["threads"].items():
+        out.append("thread %s" % t)
+        for o in ops:
+            if o["op"] == "enq": out.append("enq %s" % o["n"])
+            elif o["op"] == "deq": out.append("deq %d" % o["lck"])
+            else: out.append("reenq")
+    return "\n".join(out) + "\n"
+
+
+def wfq_component(plainbuf):
+    # legacy cds_wfq.  TLC explores with the plain node_init store buffered (hardware behaviour); recorded executions are validated
+    # with PlainBuf = FALSE because the executed code commits plain stores at once (one of the TSO behaviours, see Lfs)
+    return {
+        "spec": "Wfq", "driver": "d_wfq.c", "trace": "WfqTrace", "variant": "_pb" if plainbuf else "",
+        "invariants": ["Linearizable", "Conservation"], "mc_invariants": ["DeadlockFree"], "constraints": ["SBBound"],
+        "consts": lambda sc: {"Threads": tla(set(sc["threads"])), "Prog": tla_fun(sc["threads"]), "SBMax": str(sc.get("sbmax", 2)),
+                              "PlainBuf": "TRUE" if plainbuf else "FALSE"},
+        "program": wfq_program, "defines": ["URCU_VERIF_WFQ_ADAPT_ATTEMPTS=2"],
+    }
+
+
 def run(ctx):
     q = ctx.quick()
     conc.run_component(ctx, WFCQ, ["wfcq_2e1d", "wfcq_nb", "wfcq_splice", "wfcq_locked"], nseeds=150 if q else 3000, nsim=40 if q else 400)
+    wq = ["wfq_2e1d", "wfq_locked", "wfq_reuse"]
+    conc.run_component(ctx, wfq_component(False), wq, nseeds=100 if q else 2000, nsim=30 if q else 300)
+    for scn in wq:      # design level with the plain store buffered as on the hardware (no code binding needed: same labels)
+        if len(ctx.violations) < conc.MAXV:
+            r = conc.model_check(ctx, wfq_component(True), load_scenario(scn))
+            log("  [TLC] %s (PlainBuf): %d distinct states, %.0fs, %s" % (scn, r.distinct, r.wall, "ok" if r.ok else (r.violation or r.error)))
 
 
 def replay(ctx, path):
-    conc.replay(ctx, WFCQ, path)
+    import json, os
+    meta = json.load(open(os.path.join(path, "meta.json")))
+    conc.replay(ctx, wfq_component(False) if str(meta.get("scenario", "")).startswith("wfq_") else WFCQ, path)
